@@ -58,6 +58,7 @@ type MSess struct {
 	expect    string // digest announced at creation via mount= (no from)
 	maybeGone bool
 	endedHow  string
+	tainted   bool
 }
 
 type MRepo struct {
@@ -220,7 +221,24 @@ func (m *Model) judgeManifestPut(repo, ref, ctype, qdigest string, body []byte, 
 	v.mt = mt
 	if !supportedMT(mt) {
 		v.reason = "unsupported or undetectable media type"
+		if ct == "" && view.mt == "" {
+			// detection of an untyped body is heuristic: an odd body may be refused or taken as an image
+			v.either = view.shape != ""
+		}
 		return v
+	}
+	// fields that matter for the declared kind must have the right JSON types
+	relevant := []string{"schemaVersion", "mediaType", "artifactType", "subject", "annotations"}
+	if isIndexMT(mt) {
+		relevant = append(relevant, "manifests")
+	} else {
+		relevant = append(relevant, "config", "layers")
+	}
+	for _, f := range relevant {
+		if view.fieldErr[f] {
+			v.reason = "body does not parse"
+			return v
+		}
 	}
 	// consistency, taken narrowly: an index type needs an index-shaped body and vice versa
 	if isIndexMT(mt) && view.shape == "image" {
@@ -231,15 +249,15 @@ func (m *Model) judgeManifestPut(repo, ref, ctype, qdigest string, body []byte, 
 		v.reason = "image media type with an index-shaped body"
 		return v
 	}
-	if view.shape == "" {
-		// neither config nor manifests: an image without config cannot be complete; an index type with
-		// no manifests field is tolerated by many registries; leave it to either outcome
+	if view.shape == "" || view.shape == "both" || len(view.fieldErr) > 0 {
+		// ambiguous bodies: either outcome
 		v.either = true
 	}
 	if view.mt != "" && view.mt != mt {
 		v.loose = "mediaType field differs from Content-Type"
 	}
-	for _, d := range view.refs {
+	v.view = view.under(mt)
+	for _, d := range v.view.refs {
 		b, ok := r.blobs[d]
 		if !ok {
 			v.reason = "references content missing from this repository: " + d
